@@ -115,6 +115,8 @@ def run(ck):
             if kind == "transfer":
                 ck.ob("DEFUSE", v.path, "sender-receiver-order", ("arg", 3) in oa[3] and ("arg", 2) in oa[4], "verify_enc_trans receives (sender_pk, receiver_pk) in that order", v.loc(bi))
 
+    enf_module_sweep(ck, crate("rs", CB), re.compile(r"concordium_base::(encrypted_transfers|elgamal)::"), 1, "encrypted_transfers/elgamal")
+
     # d. chunking constants
     c = crate("rs", CB)
     adt = c.adts.get(CB + "::encrypted_transfers::types::EncryptedAmount")
